@@ -21,7 +21,9 @@ TInit == /\ node = 0 /\ eidx = 0
          /\ EnvInit(NodeRec(0).fs)
 
 ToObs(e) == [req |-> e.req, force |-> e.force, failing |-> e.failing, reports |-> e.reports, ran |-> e.ran,
-             outcome |-> e.outcome, errcls |-> e.errcls, killed |-> e.killed]
+             outcome |-> e.outcome, errcls |-> e.errcls, killed |-> e.killed,
+             seen |-> IF "seen" \in DOMAIN e THEN e.seen ELSE [x \in {} |-> 0],      \* per task: the files when its turn came / when it
+             done |-> IF "done" \in DOMAIN e THEN e.done ELSE [x \in {} |-> 0]]      \* had finished (absent in graphs built from the binary)
 
 Step(e) ==
   CASE e.act = "edit"    -> EnvEdit(e.f, e.c)
